@@ -23,6 +23,7 @@ From Ase Require Import Spec.Serialize.
 From Ase Require Import Proofs.UserData.
 From Ase Require Import Proofs.EndToEnd.
 From Ase Require Import Proofs.EndToEndTotal.
+From Ase Require Import Proofs.EndToEndTilesets.
 
 (* (a) framing inverts the serialiser: every program, either count field, any bytes after it *)
 Theorem C01_framing_serialize :
@@ -182,6 +183,54 @@ Theorem C01_e2e_cels_iff :
       (exists c, In (fr, c) (prog_cels s) /\ cc_layer (c_data c) = l).
 Proof. exact e2e_cels_iff. Qed.
 Print Assumptions C01_e2e_cels_iff.
+
+(* TILESETS.  prog_tilesets s: the tilesets the tileset chunks of s encode, in file order (pixels: the stored bytes read in
+   the sprite's colour mode).  For every id the sprite reports the LAST chunk with that id - identifier, empty-tile flag,
+   tile count, tile size, base index, name, external reference exactly as encoded, the pixels converted and checked
+   against the final palette - and nothing for an id no chunk carries.  Holds for every program that loads (tilemap
+   layers and cels included). *)
+Theorem C01_e2e_tilesets :
+  forall (inflate : list Z -> Z -> zres) (s : sprite_prog) (tail : list Z) (f : file),
+    wf_prog s -> inflate_ok inflate s -> load inflate (serialize s ++ tail) = Ok f ->
+    forall k : Z, 0 <= k ->
+      match find (fun t => ts_id t =? k) (rev (prog_tilesets s)) with
+      | Some t => exists ts, validate_tileset (f_palette f) (f_fmt f) t = Ok ts /\ zfind k (f_tilesets f) = Some ts
+      | None => zfind k (f_tilesets f) = None
+      end.
+Proof. exact e2e_tilesets. Qed.
+Print Assumptions C01_e2e_tilesets.
+
+Theorem C01_e2e_tileset_attrs :
+  forall (pal : option palette) (fmt : pixfmt) (t : tileset rawpixels) (ts : tileset pixels),
+    validate_tileset pal fmt t = Ok ts ->
+    ts_id ts = ts_id t /\ ts_empty0 ts = ts_empty0 t /\ ts_count ts = ts_count t /\ ts_w ts = ts_w t /\ ts_h ts = ts_h t /\
+    ts_base ts = ts_base t /\ ts_name ts = ts_name t /\ ts_ext ts = ts_ext t /\
+    exists rp px, ts_pixels t = Some rp /\ validate_pixels pal fmt false rp = Ok px /\ ts_pixels ts = Some px.
+Proof. exact validate_tileset_attrs. Qed.
+Print Assumptions C01_e2e_tileset_attrs.
+
+(* non-vacuity: a program with two tileset chunks for id 7 (2 and 3 tiles), a tilemap layer and a tilemap cel is well formed,
+   its streams inflate under the example's oracle, it loads, and id 7 reports the second chunk *)
+Theorem C01_e2e_tilesets_example :
+  wf_prog TilesetExample.ts_prog /\ inflate_ok TilesetExample.ex_inflate TilesetExample.ts_prog /\
+  (exists f, load TilesetExample.ex_inflate (serialize TilesetExample.ts_prog ++ []) = Ok f) /\
+  (forall f, load TilesetExample.ex_inflate (serialize TilesetExample.ts_prog ++ []) = Ok f ->
+     (exists ts, zfind 7 (f_tilesets f) = Some ts /\ ts_count ts = 3 /\ ts_name ts = [98] /\ ts_base ts = -3 /\ ts_w ts = 1) /\
+     zfind 6 (f_tilesets f) = None).
+Proof. exact (conj TilesetExample.ts_wf (conj TilesetExample.ts_inflate_ok (conj TilesetExample.ts_loads TilesetExample.ts_thm))). Qed.
+Print Assumptions C01_e2e_tilesets_example.
+
+(* a validated tileset map holds, under every key of the assembled map, the validated entry, and nothing else *)
+Theorem C01_validate_tilesets_find :
+  forall (pal : option palette) (fmt : pixfmt) (m : zmap (tileset rawpixels)) (tss : zmap (tileset pixels)),
+    validate_tilesets pal fmt m = Ok tss ->
+    forall k : Z, 0 <= k ->
+      match zfind k m with
+      | Some t => exists ts, validate_tileset pal fmt t = Ok ts /\ zfind k tss = Some ts
+      | None => zfind k tss = None
+      end.
+Proof. exact validate_tilesets_find. Qed.
+Print Assumptions C01_validate_tilesets_find.
 
 (* (e) non-vacuity: the example program (2 frames, 3 layers with a group, tags, a slice with two
    keys, a palette and a legacy palette, user data, a raw and a linked cel, junk everywhere, a
